@@ -333,7 +333,7 @@ def gen_abandon(rng, gen='G-sim-overbook-abandon'):
     further pipelines keep arriving, few CPUs, so that every freed CPU matters"""
     tps = rng.choice([1, 2, 10])
     npools = rng.choice([1, 1, 2])
-    cpu = rng.choice([2, 2, 3, 4])
+    cpu = rng.choice([1, 2, 2, 3, 4])
     ram = rng.choice([16, 32, 64])
     nticks = rng.choice([60, 100, 150])
     pipes, segs, arrivals = [], [], []
@@ -341,10 +341,11 @@ def gen_abandon(rng, gen='G-sim-overbook-abandon'):
     def op(ticks, mem):
         return [dict(baseline_cpu_seconds=float(ticks) / tps, cpu_scaling='const', storage_read_gb=0.0, memory_gb=float(mem))]
     for k in range(rng.randint(1, 3)):
-        nb = rng.randint(2, 3)                      # independent roots: one bad, the others long
+        nb = rng.randint(2, 4)                      # independent roots: 1-3 bad ones (always killed), the others long
+        nbad = min(nb, rng.choice([1, 1, 2, 3]))
         dag = [[] for _ in range(nb)]
-        ops = [op(rng.randint(1, 3), ram * rng.choice([1.5, 2, 4]))] + [op(rng.randint(8, 25), rng.choice([0.5, 1, 2]))
-                                                                        for _ in range(nb - 1)]
+        ops = [op(rng.randint(1, 3), ram * rng.choice([1.5, 2, 4])) for _ in range(nbad)] + \
+              [op(rng.randint(8, 25), rng.choice([0.5, 1, 2])) for _ in range(nb - nbad)]
         if rng.random() < 0.5:                      # a join behind them (never runs)
             dag.append(list(range(nb)))
             ops.append(op(2, 1))
